@@ -680,40 +680,26 @@ func pbSetQueryDeserialize(in *pbx.SetQuery) *MsgSetQuery {
 		return nil
 	}
 
-	var msg *MsgSetQuery
+	// Never nil for a non-nil input: the callers dereference the result, and an empty
+	// query or an empty 'sub' section ("use the default mode") are legitimate requests.
+	msg := &MsgSetQuery{}
 
 	if desc := in.GetDesc(); desc != nil {
-		msg = &MsgSetQuery{}
 		msg.Desc = pbSetDescDeserialize(desc)
 	}
 
 	if sub := in.GetSub(); sub != nil {
-		user := sub.GetUserId()
-		mode := sub.GetMode()
-
-		if user != "" || mode != "" {
-			if msg == nil {
-				msg = &MsgSetQuery{}
-			}
-
-			msg.Sub = &MsgSetSub{
-				User: sub.GetUserId(),
-				Mode: sub.GetMode(),
-			}
+		msg.Sub = &MsgSetSub{
+			User: sub.GetUserId(),
+			Mode: sub.GetMode(),
 		}
 	}
 
 	if tags := in.GetTags(); tags != nil {
-		if msg == nil {
-			msg = &MsgSetQuery{}
-		}
 		msg.Tags = tags
 	}
 
 	if cred := in.GetCred(); cred != nil {
-		if msg == nil {
-			msg = &MsgSetQuery{}
-		}
 		msg.Cred = pbClientCredDeserialize(cred)
 	}
 
